@@ -1,26 +1,91 @@
-"""C19 - the automatic progress indicator is well-behaved under every interleaving."""
-import itertools
+"""C19 - the automatic progress indicator is well-behaved under every interleaving.
+
+Case kinds:
+  k=0  automatic mode, COARSE schedule (yield points: stream writes, sleeps, thread start, join), default values / format /
+       interval: the domain of Model/Spinner.v (entry run_C19) and of its theorems;
+  k=2  automatic mode, FINE schedule (additionally every operation on the stop event and every access to the fields the two
+       threads share: _auto_thread, _message, _current, _started, _update_time), indicator value lists of length 2 / 4 / 5,
+       two formats, interval 100 / 250: Model/Spinner2.v (entry run_C19F);
+  k=1  manual mode (start / advance / set_message / finish under a virtual clock), default parameters: Model/Spinner.v;
+  k=3  manual mode with the parameters of k=2: Model/Spinner2.v.
+Bodies raise RuntimeError, KeyboardInterrupt, SystemExit and GeneratorExit.
+"""
+import itertools, re
 from hutil import S, unS
 import termemu
 
 MODEL = "C19"
+MODEL_ENTRY = "run_C19F"        # the driver's entry for C19 (Model/Spinner2.v); kinds 0 and 1 fall through to run_C19 (Model/Spinner.v)
 PROP_FILES = ["Props/C19.v"]
 CASE_TIMEOUT = 30
-RULE = ("automatic mode: every schedule (which thread runs next) of length <= 6 (quick) / 8 (thorough) at the granularity of stream "
-        "writes, sleeps, thread start and join, for 9 bodies (set_message while spinning, work, raising at different points), then "
-        "random schedules up to length 40 - the two real threads of the implementation are driven by a deterministic scheduler on a "
-        "virtual clock; manual mode: call sequences of advance / set_message / finish with clock steps {0,40,100,250} ms; "
-        "non-trivial = a schedule in which both threads write; distinct by (body, schedule)")
-TRUSTED = ["harness/sched.py: the scheduler that serialises the implementation's two threads at stream writes, time.sleep, Thread.start and "
-           "Thread.join (patched inside clikit.ui.components.progress_indicator only); preemption inside a single stream write or between "
-           "Python bytecodes is not explored"]
-ASSUMPTIONS = ["ANSI output at normal verbosity (format ' {indicator} {message}'); the clock moves only in time.sleep"]
+RULE = ("automatic mode, coarse: every schedule (which thread runs next) of length <= 6 (quick) / 8 (thorough) at the granularity of stream "
+        "writes, sleeps, thread start and join, for 15 bodies (set_message while spinning, work, raising RuntimeError / KeyboardInterrupt / "
+        "SystemExit / GeneratorExit at different points), then random schedules up to length 40; automatic mode, fine (every operation on "
+        "the stop event and every read / write of _auto_thread, _message, _current, _started, _update_time is a scheduling point): enumeration "
+        "up to a preemption bound - schedules 'caller a steps, spinner b steps, caller c steps, spinner d steps, then the caller whenever it "
+        "can run': ALL (a, b) with c = d = 0 for a over the caller's whole program and b over one and a half rounds of the spinner's loop, "
+        "and a grid of (a, b, c, d) (quick: every second a and c, b in {1,3,9,12}, d in {2,3,12}; thorough: every a and c, every second b, "
+        "d in {1,2,3,5,8,12}) - for the same bodies x "
+        "indicator value lists of length 2 / 4 / 5 x two formats x interval 100 / 250, then random schedules up to length 120; the two real "
+        "threads of the implementation are driven by a deterministic scheduler on a virtual clock; manual mode: call sequences of advance / "
+        "set_message / finish with clock steps {0,40,100,250} ms, default and varied parameters; "
+        "non-trivial = a schedule in which both threads write; distinct by (body, parameters, write log)")
+TRUSTED = ["harness/sched.py: the scheduler that serialises the implementation's two threads; the yield points are patched in from outside "
+           "(threading / time as seen by clikit.ui.components.progress_indicator, the output stream, a subclass of ProgressIndicator whose "
+           "__getattribute__ / __setattr__ stop at the five shared fields); preemption inside one of those operations (one bytecode under the "
+           "interpreter lock, one stream write) does not exist in CPython; accesses to OTHER attributes (_io, _fmt, _values, _interval: "
+           "never written after construction) are not scheduling points"]
+ASSUMPTIONS = ["ANSI output at normal verbosity; formats made of literal text, {indicator} and {message}; the clock moves only in time.sleep",
+               "a spinner frame written after the caller's line break on the exceptional exit is allowed (the statement speaks of the last "
+               "frame for the normal exit only)"]
 
+R = ["raise"]
 BODIES = [
-    [], [["set", "m1"]], [["work", 150]], [["set", "m1"], ["work", 150], ["set", "m2"]], [["raise"]], [["set", "m1"], ["raise"]],
-    [["work", 250], ["raise"]], [["work", 120], ["set", "longer message"], ["work", 120]], [["set", "a"], ["set", "b"], ["set", "c"]],
+    [], [["set", "m1"]], [["work", 150]], [["set", "m1"], ["work", 150], ["set", "m2"]], [R], [["set", "m1"], R],
+    [["work", 250], R], [["work", 120], ["set", "longer message"], ["work", 120]], [["set", "a"], ["set", "b"], ["set", "c"]],
+    [["raise", "KeyboardInterrupt"]], [["raise", "SystemExit"]], [["raise", "GeneratorExit"]],
+    [["work", 150], ["raise", "SystemExit"]], [["set", "m1"], ["work", 250], ["raise", "KeyboardInterrupt"]], [["work", 300], ["set", "late"]],
 ]
+VALUES = [None, ["a", "b"], ["1", "2", "3", "4", "5"]]
+DEFAULT_VALUES = ["-", "\\", "|", "/"]
+FORMATS = [None, "{message} ({indicator})"]
+DEFAULT_FORMAT = " {indicator} {message}"
+INTERVALS = [100, 250]
 T0 = 5000000
+
+
+def _pieces(fmt):
+    """the format as the implementation reads it (re.sub over {name}): literal text, {indicator}, {message}"""
+    out, pos = [], 0
+    for m in re.finditer(r"(?i){([a-z\-_]+)(?::([^}]+))?}", fmt):
+        if m.group(1) in ("indicator", "message"):
+            if m.start() > pos:
+                out.append([0, fmt[pos:m.start()]])
+            out.append([1] if m.group(1) == "indicator" else [2])
+            pos = m.end()
+    if pos < len(fmt):
+        out.append([0, fmt[pos:]])
+    return out
+
+
+def _fill(pieces, ind, msg):
+    return "".join(p[1] if p[0] == 0 else (ind if p[0] == 1 else msg) for p in pieces)
+
+
+def _cfg(c):
+    vals = VALUES[c.get("vals", 0)] or DEFAULT_VALUES
+    fmt = FORMATS[c.get("fmt", 0)] or DEFAULT_FORMAT
+    return vals, _pieces(fmt), c.get("iv", 100)
+
+
+def _main_steps(body, npl):
+    """upper bound of the caller's steps in the fine model: per action, then the exit path"""
+    n = 0
+    for a in body:
+        n += (2 + npl) if a[0] == "set" else 1
+        if a[0] == "raise":
+            break
+    return n + 6
 
 
 def gen(rng, tier, info):
@@ -34,35 +99,105 @@ def gen(rng, tier, info):
     n_ex = len(cases)
     for _ in range(nrand):
         cases.append({"k": 0, "body": rng.randrange(len(BODIES)), "sched": [1 if rng.random() < 0.6 else 0 for _ in range(rng.randint(depth + 1, 40))]})
+    # ---- fine schedules: complete enumeration up to a preemption bound.  A schedule "caller a, spinner b, caller c, spinner d, then
+    # the caller whenever it can run (else the spinner)" has at most 3 forced switches; a and c range over the caller's whole program,
+    # b and d over one and a half iterations of the spinner's loop.
+    n0 = len(cases)
+    stride = {"quick": 1, "thorough": 1, "search": 3}[tier]
+    combos = [(v, f, iv) for v in range(len(VALUES)) for f in range(len(FORMATS)) for iv in INTERVALS]
+    for bi, body in enumerate(BODIES):
+        m_len = _main_steps(body, 2)
+        s_len = 14
+        segs = []
+        for a in range(0, m_len + 1):
+            for b in range(0, s_len + 1):
+                segs.append((a, b, 0, 0))
+        if tier == "thorough":
+            for a in range(0, m_len + 1):
+                for b in range(1, s_len + 1, 2):
+                    for cc in range(1, m_len - a + 1):
+                        for d in (1, 2, 3, 5, 8, 12):
+                            segs.append((a, b, cc, d))
+        else:
+            for a in range(0, m_len + 1, 2):
+                for b in (1, 3, 9, 12):
+                    for cc in range(1, m_len - a + 1, 2):
+                        for d in (2, 3, 12):
+                            segs.append((a, b, cc, d))
+        for i, (a, b, cc, d) in enumerate(segs[::stride]):
+            v, f, iv = combos[(i + bi) % len(combos)]
+            cases.append({"k": 2, "body": bi, "sched": [0] * a + [1] * b + [0] * cc + [1] * d, "vals": v, "fmt": f, "iv": iv})
+    n_fine = len(cases) - n0
+    n_frand = {"quick": 1500, "thorough": 20000, "search": 300}[tier]
+    for _ in range(n_frand):
+        p = rng.choice([0.3, 0.5, 0.7])
+        v, f, iv = rng.choice(combos)
+        cases.append({"k": 2, "body": rng.randrange(len(BODIES)), "sched": [1 if rng.random() < p else 0 for _ in range(rng.randint(5, 120))],
+                      "vals": v, "fmt": f, "iv": iv})
+    n1 = len(cases)
     mops = [[0], [1, "x"], [1, "yy"], [2, "done", 1], [2, "done", 0]]
     for k in range(1, {"quick": 4, "thorough": 5, "search": 3}[tier] + 1):
         for seq in itertools.product(range(3), repeat=k):
             for dts in itertools.product((0, 40, 100, 250), repeat=min(k, 2)):
                 d = list(dts) + [100] * (k - len(dts))
                 for fin in (3, 4):
-                    cases.append({"k": 1, "ops": [[dt, mops[i]] for dt, i in zip(d, seq)] + [[40, mops[fin]]]})
+                    ops = [[dt, mops[i]] for dt, i in zip(d, seq)] + [[40, mops[fin]]]
+                    cases.append({"k": 1, "ops": ops})
+                    if k <= 3 or tier == "thorough":
+                        v, f, iv = combos[(len(cases)) % len(combos)]
+                        if (v, f, iv) != (0, 0, 100):
+                            cases.append({"k": 3, "ops": ops, "vals": v, "fmt": f, "iv": iv})
+    for _ in range({"quick": 400, "thorough": 4000, "search": 50}[tier]):
+        v, f, iv = rng.choice(combos)
+        ops = [[rng.choice([0, 40, 99, 100, 101, 249, 250, 251, 600]), rng.choice(mops[:3])] for _ in range(rng.randint(3, 12))]
+        cases.append({"k": 3, "ops": ops + [[rng.choice([0, 40]), rng.choice(mops[3:])]], "vals": v, "fmt": f, "iv": iv})
     info["exhaustive"] = True
-    info["distribution"] = {"bodies": len(BODIES), "exhaustive_schedules": n_ex, "random_schedules": nrand,
-                            "manual_sequences": len(cases) - n_ex - nrand, "max_schedule_len_exhaustive": depth}
+    info["distribution"] = {"bodies": len(BODIES), "coarse_exhaustive_schedules": n_ex, "coarse_random_schedules": nrand,
+                            "fine_bounded_preemption_schedules": n_fine, "fine_random_schedules": n_frand,
+                            "manual_sequences": len(cases) - n1, "max_schedule_len_exhaustive_coarse": depth,
+                            "value_lists": [len(v or DEFAULT_VALUES) for v in VALUES], "formats": [f or DEFAULT_FORMAT for f in FORMATS],
+                            "intervals": INTERVALS}
     return cases
+
+
+def _acts(body):
+    acts = []
+    for a in body:
+        acts.append([0, S(a[1])] if a[0] == "set" else ([1, a[1]] if a[0] == "work" else [2]))
+    return acts
+
+
+def _wire_pieces(pieces):
+    return [[0, S(p[1])] if p[0] == 0 else [p[0]] for p in pieces]
+
+
+def _wire_ops(c):
+    ops = []
+    for dt, o in c["ops"]:
+        ops.append([dt, [0] if o[0] == 0 else ([1, S(o[1])] if o[0] == 1 else [2, S(o[1]), o[2]])])
+    return ops
 
 
 def wire(c):
     if c["k"] == 0:
-        acts = []
-        for a in BODIES[c["body"]]:
-            acts.append([0, S(a[1])] if a[0] == "set" else ([1, a[1]] if a[0] == "work" else [2]))
-        return [0, T0, 100, S("start"), S("Done"), acts, c["sched"]]
-    ops = []
-    for dt, o in c["ops"]:
-        ops.append([dt, [0] if o[0] == 0 else ([1, S(o[1])] if o[0] == 1 else [2, S(o[1]), o[2]])])
-    return [1, T0, 100, S("start"), ops]
+        return [0, T0, 100, S("start"), S("Done"), _acts(BODIES[c["body"]]), c["sched"]]
+    if c["k"] == 1:
+        return [1, T0, 100, S("start"), _wire_ops(c)]
+    vals, pieces, iv = _cfg(c)
+    if c["k"] == 2:
+        return [2, [ord(v) for v in vals], _wire_pieces(pieces), iv, 100, T0, S("start"), S("Done"), _acts(BODIES[c["body"]]), c["sched"]]
+    return [3, [ord(v) for v in vals], _wire_pieces(pieces), iv, T0, S("start"), _wire_ops(c)]
 
 
 def describe(c):
-    if c["k"] == 0:
-        return "auto('start','Done') body=%r schedule=%s (1 = spinner thread runs, 0 = caller)" % (BODIES[c["body"]], "".join(map(str, c["sched"])))
-    return "manual: start('start'); " + "; ".join("+%dms %s" % (dt, o) for dt, o in c["ops"])
+    if c["k"] in (0, 2):
+        vals, pieces, iv = _cfg(c)
+        return "ProgressIndicator(values=%r, fmt=%r, interval=%d).auto('start','Done') body=%r %s schedule=%s (1 = spinner thread runs, 0 = caller)" % (
+            vals, FORMATS[c.get("fmt", 0)] or DEFAULT_FORMAT, iv, BODIES[c["body"]],
+            "FINE (every access to shared state is a scheduling point)" if c["k"] == 2 else "coarse", "".join(map(str, c["sched"])))
+    vals, pieces, iv = _cfg(c)
+    return "manual (values=%r, fmt=%r, interval=%d): start('start'); " % (vals, FORMATS[c.get("fmt", 0)] or DEFAULT_FORMAT, iv) + \
+        "; ".join("+%dms %s" % (dt, o) for dt, o in c["ops"])
 
 
 PREFIX = "\r\x1b[2K"
@@ -77,13 +212,18 @@ def _dec(data):
 
 
 def run_impl(c):
-    if c["k"] == 0:
+    if c["k"] in (0, 2):
         import sched
-        r = sched.run_auto(T0, 100, "start", "Done", [tuple(a) for a in BODIES[c["body"]]], [bool(x) for x in c["sched"]])
+        fine = c["k"] == 2
+        r = sched.run_auto(T0, c.get("iv", 100), "start", "Done", [tuple(a) for a in BODIES[c["body"]]], [bool(x) for x in c["sched"]],
+                           fine=fine, values=VALUES[c.get("vals", 0)], fmt=FORMATS[c.get("fmt", 0)])
         writes = [[1 if who == "S" else 0, _dec(d)] for who, d in r["log"]]
         t = termemu.Term(200)
         t.feed("".join(d for _, d in r["log"]))
-        return [writes, int(r["done"]), int(r["stop"]), [[S(x) for x in t.screen()], t.r, t.c], r["errors"], r["alive"], r.get("raised")]
+        events = [[who, kind, arg if isinstance(arg, (str, int, type(None))) else str(arg), val if isinstance(val, (str, int, bool, type(None))) else str(val)]
+                  for who, kind, arg, val in r["events"]]
+        return [writes, int(r["done"]), int(r["stop"]), [[S(x) for x in t.screen()], t.r, t.c], len(r["skips"]), r["errors"], r["alive"], r.get("raised"),
+                events, [list(x) for x in r["skips"]]]
     import time
     from fractions import Fraction
     import clikit.ui.components.progress_indicator as pi
@@ -100,16 +240,20 @@ def run_impl(c):
     pi.time = TimeShim
     try:
         io = BufferedIO(formatter=AnsiFormatter(forced=True))
-        ind = pi.ProgressIndicator(io, None, 100)
-        ind.start("start")
-        for dt, o in c["ops"]:
-            now[0] += dt
-            if o[0] == 0:
-                ind.advance()
-            elif o[0] == 1:
-                ind.set_message(o[1])
-            else:
-                ind.finish(o[1], bool(o[2]))
+        ind = pi.ProgressIndicator(io, FORMATS[c.get("fmt", 0)], c.get("iv", 100), VALUES[c.get("vals", 0)])
+        failed = None
+        try:
+            ind.start("start")
+            for dt, o in c["ops"]:
+                now[0] += dt
+                if o[0] == 0:
+                    ind.advance()
+                elif o[0] == 1:
+                    ind.set_message(o[1])
+                else:
+                    ind.finish(o[1], bool(o[2]))
+        except Exception as e:
+            failed = type(e).__name__
         data = io.fetch_error()
     finally:
         pi.time = old
@@ -121,27 +265,64 @@ def run_impl(c):
             frames.append([])
         else:
             frames.append([S(body)])
-    return [frames, data]
+    if failed:
+        frames.append([S("!raised " + failed)])
+    return [frames, data, failed]
 
 
 def canon_impl(c, o):
     if c["k"] == 0:
         return o[:4]
+    if c["k"] == 2:
+        return o[:5]
     return [o[0]]
 
 
+def _check_frames_against_fields(c, events, vals, pieces):
+    """Every frame a thread writes is made of the field values THAT thread read for it: the indicator value at the position it read from
+    _current and the message it read from _message, both read since the thread's previous frame / sleep (nothing kept from an earlier
+    round); a frame of the caller shows the message that is current when it is written (the caller is the only one who sets it)."""
+    cur_msg = None
+    last = {}        # thread -> {"msg": (value, index), "cur": (value, index), "mark": index of its previous write / sleep}
+    for i, (who, kind, arg, val) in enumerate(events):
+        st = last.setdefault(who, {"msg": None, "cur": None, "mark": -1})
+        if kind == "wr" and arg == "_message":
+            cur_msg = val
+        elif kind == "rd" and arg == "_message":
+            st["msg"] = (val, i)
+        elif kind == "rd" and arg == "_current":
+            st["cur"] = (val, i)
+        elif kind == "sleep":
+            st["mark"] = i
+        elif kind == "write":
+            if arg != "\n":
+                if not arg.startswith(PREFIX) or st["msg"] is None or st["cur"] is None:
+                    return "write-is-not-a-whole-frame"
+                frame = arg[len(PREFIX):]
+                if st["msg"][1] < st["mark"] or st["cur"][1] < st["mark"]:
+                    return "frame-shows-a-field-value-kept-from-an-earlier-round"
+                if frame != _fill(pieces, vals[st["cur"][0] % len(vals)], st["msg"][0]):
+                    return "frame-is-not-made-of-the-indicator-value-and-message-read"
+                if who == "M" and st["msg"][0] != cur_msg:
+                    return "caller-frame-does-not-show-the-current-message"
+            st["mark"] = i
+    return None
+
+
 def oracle(c, o):
-    if c["k"] == 0:
-        writes, done, stop, (screen, r, col), errors, alive, raised = o
+    if c["k"] in (0, 2):
+        writes, done, stop, (screen, r, col), nskips, errors, alive, raised, events, skips = o
+        vals, pieces, iv = _cfg(c)
         if errors:
-            return "thread-failed:" + errors[0][1][:40]
+            return ("scheduler-failed:" if errors[0][0] == "scheduler" else "thread-failed:") + errors[0][1][:40]
+        # leaving the automatic mode always stops and joins the spinner
         if not done or alive:
             return "spinner-not-stopped-and-joined"
         if not stop:
             return "stop-event-not-set"
         body = BODIES[c["body"]]
         msgs = ["start", "Done"] + [a[1] for a in body if a[0] == "set"]
-        ok_frames = set(" %s %s" % (ch, m) for ch in "-\\|/" for m in msgs)
+        ok_frames = set(_fill(pieces, ch, m) for ch in vals for m in msgs)
         lines = [unS(x) for x in screen]
         for ln in lines:
             if ln != "" and ln not in ok_frames:
@@ -149,37 +330,48 @@ def oracle(c, o):
         for who, w in writes:
             if w and unS(w[0]) not in ok_frames:
                 return "write-is-not-a-whole-frame"
+        rr = _check_frames_against_fields(c, events, vals, pieces)
+        if rr:
+            return rr
         raises = any(a[0] == "raise" for a in body)
         if bool(raised) != raises:
             return "exception-not-propagated"
         if not raises:
             frames = [unS(w[0]) for _, w in writes if w]
-            if not frames or frames[-1] != " - Done" or writes[-1][1] != []:
+            if not frames or frames[-1] != _fill(pieces, vals[0], "Done") or writes[-1][1] != []:
                 return "end-message-is-not-the-last-frame"
         return None
+    vals, pieces, iv = _cfg(c)
+    if o[2]:
+        return "manual-call-raised:" + o[2]
     frames = [unS(f[0]) if f else None for f in o[0]]
     # every frame: an indicator value followed by the current message; redraws by advance() no closer than the interval
-    msg, now, last_adv_draw, i = "start", T0, None, 1
-    upd = T0 + 100
-    if not frames or frames[0] != " - start":
+    msg, now, i = "start", T0, 1
+    upd = T0 + iv
+
+    def ok(fr, m):
+        return fr is not None and any(fr == _fill(pieces, ch, m) for ch in vals)
+    if not frames or frames[0] != _fill(pieces, vals[0], "start"):
         return "first-frame"
     for dt, op in c["ops"]:
         now += dt
         if op[0] == 0:
             if now >= upd:
-                if i >= len(frames) or frames[i] is None or frames[i][3:] != msg or frames[i][1] not in "-\\|/":
+                if i >= len(frames) or not ok(frames[i], msg):
                     return "advance-frame-malformed"
                 i += 1
-                upd = now + 100
+                upd = now + iv
         elif op[0] == 1:
             msg = op[1]
-            if i >= len(frames) or frames[i] is None or frames[i][3:] != msg:
+            if i >= len(frames) or not ok(frames[i], msg):
                 return "set_message-frame"
             i += 1
         else:
             msg = op[1]
-            if i + 1 >= len(frames) or frames[i] is None or frames[i][3:] != msg or frames[i + 1] is not None:
+            if i + 1 >= len(frames) or not ok(frames[i], msg) or frames[i + 1] is not None:
                 return "finish-frame"
+            if op[2] and frames[i] != _fill(pieces, vals[0], msg):
+                return "finish-did-not-reset-the-indicator"
             i += 2
     if i != len(frames):
         return "redraw-more-often-than-the-interval"
@@ -187,9 +379,23 @@ def oracle(c, o):
 
 
 def nontrivial_key(c, o):
-    if c["k"] == 0:
+    if c["k"] in (0, 2):
         who = set(w[0] for w in o[0])
         if len(who) == 2:
-            return [c["body"], c["sched"]]
+            # distinct by what was written by whom, not by the schedule that led to it
+            return [c["k"], c["body"], c.get("vals", 0), c.get("fmt", 0), c.get("iv", 100), o[0]]
         return None
-    return c["ops"]
+    return [c["k"], c["ops"], c.get("vals", 0), c.get("fmt", 0), c.get("iv", 100)]
+
+
+def shrink(c):
+    if c["k"] in (0, 2):
+        sc = c["sched"]
+        for i in range(len(sc)):
+            yield dict(c, sched=sc[:i] + sc[i + 1:])
+        if sc:
+            yield dict(c, sched=sc[:-1])
+    else:
+        ops = c["ops"]
+        for i in range(len(ops) - 1):
+            yield dict(c, ops=ops[:i] + ops[i + 1:])
